@@ -171,3 +171,100 @@ class LoadEntries:
         data = _trace[2][2]
         return forall_range(0, seq_len(entries), lambda j: le32(data, 16 * j + 8) == select(entries, j).key
                             and le32(data, 16 * j + 12) == select(entries, j).mask)
+
+
+# ---- reading a router back: 1024 records of 16 bytes, each decoded from its own bytes, in order ------------------------
+from pyvc.values import to_int_term, TBV   # noqa: E402
+from pyvc.speclib import uf   # noqa: E402
+
+
+def _read_rtr(E, obj, args, kwargs, st, node):
+    s = st.copy()
+    s.trace = ListV(s.trace.items + (("read",) + tuple(args),))
+    return [(s, st.env["g_data"], None)]
+
+
+def _rsf_copy(E, obj, args, kwargs, st, node):
+    s = st.copy()
+    s.trace = ListV(s.trace.items + (("read_struct_field",) + tuple(args),))
+    return [(s, st.env["g_addr"], None)]
+
+
+def _unpack_token(E, args, kwargs, st, node):
+    """unpack_routing_table_entry (verified by its own contract above) is replaced by an uninterpreted function of the 16
+    bytes it is given - so the result list says which bytes each element was decoded from"""
+    import z3
+    from pyvc import seqs
+    entry = args[0]
+    vals = [to_int_term(seqs.seq_get(entry, i)[0]) for i in range(16)]
+    f = z3.Function("uf_unpacked", *([z3.IntSort()] * 17))
+    return [(st, f(*vals))]
+
+
+def unpacked(data, off):
+    """the decoding of the 16-byte record at byte offset `off` of data"""
+    return uf("unpacked", *[select(data, off + i) for i in range(16)])
+
+
+@contract("rig/machine_control/machine_controller.py::MachineController.get_routing_table_entries")
+class GetRoutingTableEntries:
+    properties = ("C10",)
+    params = dict(self=MC, x=TInt(0, 255), y=TInt(0, 255), g_addr=U32, g_data=BYTES)
+    externals = {"MachineController.read_struct_field": _rsf_copy, "MachineController.read": _read_rtr,
+                 "def:unpack_routing_table_entry": _unpack_token}
+    options = {"decorators": {"use_contextual_arguments": "identity"}, "trace_in_loops": False,
+               "var_shapes": {"table": TSeq(TInt()), "entry": BYTES, "rtr_data": BYTES}}
+    loop_headers = {0: "while len(rtr_data) > 0:"}
+    ghost_asserts = {"table.append(unpack_routing_table_entry(entry))": ["ghost_decodes_the_next_16_byte_record"]}
+    assumptions = ["the transport (read / read_struct_field) is external: the router copy's address and the 16384 bytes read are ghost inputs; "
+                   "unpack_routing_table_entry is verified by its own contract and stands here for 'decoded from the bytes at this offset'"]
+
+    def native(x, y):
+        raise __import__("pyvc.replay", fromlist=["OutsideHarness"]).OutsideHarness()
+
+    def requires(g_data):
+        return seq_len(g_data) == 16384       # what the read of RTR_ENTRIES * 16 bytes returns
+
+    def inv_0_whole_records_remain(rtr_data, table, g_data):
+        return (seq_len(rtr_data) == 16384 - 16 * seq_len(table) and 0 <= seq_len(table) <= 1024
+                and forall_range(0, seq_len(rtr_data), lambda i: select(rtr_data, i) == select(g_data, 16 * seq_len(table) + i)))
+
+    def inv_0_done_records_in_order(table, g_data):
+        return forall_range(0, seq_len(table), lambda j: select(table, j) == unpacked(g_data, 16 * j))
+
+    def variant_0(rtr_data):
+        return seq_len(rtr_data)
+
+    def ghost_decodes_the_next_16_byte_record(entry, iter_table, g_data):
+        k = seq_len(iter_table)
+        return seq_len(entry) == 16 and forall_range(0, 16, lambda i: select(entry, i) == select(g_data, 16 * k + i))
+
+    def ensures_asks_for_the_address_of_this_chips_router_copy(x, y, _trace):
+        return len(_trace) == 2 and _trace[0] == ("read_struct_field", "sv", "rtr_copy", x, y)
+
+    def ensures_reads_the_whole_router_copy_once(x, y, g_addr, _trace):
+        return _trace[1] == ("read", g_addr, 16384, x, y)
+
+    def ensures_one_element_per_router_entry_in_order(result, g_data):
+        return seq_len(result) == 1024 and forall_range(0, 1024, lambda j: select(result, j) == unpacked(g_data, 16 * j))
+
+
+@lemma("a_loaded_record_reads_back_as_the_entry_given")
+class RecordRoundTrip:
+    """the record load_routing_table_entries writes for an entry (its contract: record_ok) satisfies, under the contract of
+    unpack_routing_table_entry, exactly: not 'unused', the same route set, key and mask - so what get_routing_table_entries
+    returns for a block loaded with a table is that table, entry by entry.  (bit-vector arithmetic: the route word is an OR of bits)"""
+    properties = ("C10",)
+    bv = 40
+    params = dict(b4=TBV(40, 0, 255), b5=TBV(40, 0, 255), b6=TBV(40, 0, 255), b7=TBV(40, 0, 255), e=TRec("RoutingTableEntry", route=TSmallSet(ROUTES)))
+
+    def assuming(b4, b5, b6, b7, e):
+        # bytes 4..7 of the record hold the route word of the entry, little-endian (record_ok)
+        return b4 + 256 * b5 + 65536 * b6 + 16777216 * b7 == sum(((1 << r) if r in e.route else 0) for r in range(24))
+
+    def claim_not_marked_unused(b4, b5, b6, b7, e):
+        return b7 != 255
+
+    def claim_same_route_set(b4, b5, b6, b7, e):
+        w = b4 + 256 * b5 + 65536 * b6 + 16777216 * b7
+        return all((r in e.route) == (((w >> r) & 1) == 1) for r in range(24))
